@@ -146,9 +146,16 @@ inline dvec solve(dmat X, dvec b, bool &ok) {
     for (int i = n - 1; i >= 0; --i) { cld s = b[i]; for (int j = i + 1; j < n; ++j) s -= X(i, j) * b[j]; b[i] = s / X(i, i); }
     return b;
 }
-inline dmat inverse(const dmat &X, bool &ok) {
-    int n = X.n; dmat Z(n, n); ok = true;
-    for (int k = 0; k < n; ++k) { dvec e(n, cld(0, 0)); e[k] = 1; bool o; dvec c = solve(X, e, o); if (!o) ok = false; for (int i = 0; i < n; ++i) Z(i, k) = c[i]; }
+inline dmat inverse(const dmat &X, bool &ok) {           // Gauss-Jordan with partial pivoting, O(n^3)
+    int n = X.n; dmat A = X, Z = ident(n); ok = true;
+    for (int c = 0; c < n; ++c) {
+        int p = c; for (int i = c + 1; i < n; ++i) if (std::abs(A(i, c)) > std::abs(A(p, c))) p = i;
+        if (std::abs(A(p, c)) == 0) { ok = false; return dmat(n, n); }
+        if (p != c) for (int j = 0; j < n; ++j) { std::swap(A(p, j), A(c, j)); std::swap(Z(p, j), Z(c, j)); }
+        cld d = A(c, c);
+        for (int j = 0; j < n; ++j) { A(c, j) /= d; Z(c, j) /= d; }
+        for (int i = 0; i < n; ++i) if (i != c) { cld m = A(i, c); if (m == cld(0, 0)) continue; for (int j = 0; j < n; ++j) { A(i, j) -= m * A(c, j); Z(i, j) -= m * Z(c, j); } }
+    }
     return Z;
 }
 
